@@ -13,7 +13,6 @@ import Gen.Guards.FillersOK
 import Gen.Guards.LabelsOK
 import Gen.Guards.LeafOk
 import Gen.Guards.TextLoop
-import Gen.Guards.TextStable
 import Gen.Guards.TextStableC
 import Gen.Guards.WrapOK
 namespace PM.Family.C04
@@ -200,7 +199,7 @@ theorem replaceOp_residual (S : Schema) (hS : S ∈ domFamilySchemas) (tr tr1 : 
   PM.C04.replaceOp_residual S (family_det _ (domFamily_sub _ hS)) (family_fillersOK _ (domFamily_sub _ hS))
     (family_wrapOK _ (domFamily_sub _ hS)) (family_labelsOK _ (domFamily_sub _ hS))
     (family_leafOk _ (domFamily_sub _ hS)) (family_textStableC _ (domFamily_sub _ hS))
-    (family_closable _ (domFamily_sub _ hS)) (family_textStable _ hS) tr tr1 hlen hI f t sl h hres
+    (family_closable _ (domFamily_sub _ hS)) tr tr1 hlen hI f t sl h hres
 
 /-- `PM.C04.editHistory_undo_bmp` with its schema guards discharged for the bundled schema family -/
 theorem editHistory_undo_bmp (S : Schema) (hS : S ∈ domFamilySchemas) (doc : Node) (ops : List Op) (tr' : Tr)
@@ -212,8 +211,8 @@ theorem editHistory_undo_bmp (S : Schema) (hS : S ∈ domFamilySchemas) (doc : N
     (textLoop_of_B _ (family_textLoop _ (domFamily_sub _ hS))) (family_det _ (domFamily_sub _ hS))
     (family_fillersOK _ (domFamily_sub _ hS)) (family_wrapOK _ (domFamily_sub _ hS))
     (family_labelsOK _ (domFamily_sub _ hS)) (family_leafOk _ (domFamily_sub _ hS))
-    (family_textStableC _ (domFamily_sub _ hS)) (family_closable _ (domFamily_sub _ hS))
-    (family_textStable _ hS) doc ops tr' hd hn hb hall h hres
+    (family_textStableC _ (domFamily_sub _ hS)) (family_closable _ (domFamily_sub _ hS)) doc ops tr' hd hn hb
+    hall h hres
 
 /-- `PM.C04.editResidual_of'` with its schema guards discharged for the bundled schema family -/
 theorem editResidual_of' (S : Schema) (hS : S ∈ domFamilySchemas) (op : Op) (tr tr1 : Tr)
@@ -223,7 +222,7 @@ theorem editResidual_of' (S : Schema) (hS : S ∈ domFamilySchemas) (op : Op) (t
   PM.C04.editResidual_of' S (family_det _ (domFamily_sub _ hS)) (family_fillersOK _ (domFamily_sub _ hS))
     (family_wrapOK _ (domFamily_sub _ hS)) (family_labelsOK _ (domFamily_sub _ hS))
     (family_leafOk _ (domFamily_sub _ hS)) (family_textStableC _ (domFamily_sub _ hS))
-    (family_closable _ (domFamily_sub _ hS)) (family_textStable _ hS) op tr tr1 hlen hI hb h hres
+    (family_closable _ (domFamily_sub _ hS)) op tr tr1 hlen hI hb h hres
 
 /-- `PM.C04.editHistory_undo_bmp'` with its schema guards discharged for the bundled schema family -/
 theorem editHistory_undo_bmp' (S : Schema) (hS : S ∈ domFamilySchemas) (doc : Node) (ops : List Op) (tr' : Tr)
@@ -235,8 +234,8 @@ theorem editHistory_undo_bmp' (S : Schema) (hS : S ∈ domFamilySchemas) (doc : 
     (textLoop_of_B _ (family_textLoop _ (domFamily_sub _ hS))) (family_det _ (domFamily_sub _ hS))
     (family_fillersOK _ (domFamily_sub _ hS)) (family_wrapOK _ (domFamily_sub _ hS))
     (family_labelsOK _ (domFamily_sub _ hS)) (family_leafOk _ (domFamily_sub _ hS))
-    (family_textStableC _ (domFamily_sub _ hS)) (family_closable _ (domFamily_sub _ hS))
-    (family_textStable _ hS) doc ops tr' hd hn hb hall h hres
+    (family_textStableC _ (domFamily_sub _ hS)) (family_closable _ (domFamily_sub _ hS)) doc ops tr' hd hn hb
+    hall h hres
 
 /-- `PM.C04.fit_around_gapFitsBack` with its schema guards discharged for the bundled schema family -/
 theorem fit_around_gapFitsBack (S : Schema) (hS : S ∈ familySchemas) (doc doc' : Node) (f t : Nat) (req : Slice)
@@ -262,8 +261,8 @@ theorem editHistory_undo (S : Schema) (hS : S ∈ domFamilySchemas) (doc : Node)
     (textLoop_of_B _ (family_textLoop _ (domFamily_sub _ hS))) (family_det _ (domFamily_sub _ hS))
     (family_fillersOK _ (domFamily_sub _ hS)) (family_wrapOK _ (domFamily_sub _ hS))
     (family_labelsOK _ (domFamily_sub _ hS)) (family_leafOk _ (domFamily_sub _ hS))
-    (family_textStableC _ (domFamily_sub _ hS)) (family_closable _ (domFamily_sub _ hS))
-    (family_textStable _ hS) doc ops tr' hd hn hb hall h hres
+    (family_textStableC _ (domFamily_sub _ hS)) (family_closable _ (domFamily_sub _ hS)) doc ops tr' hd hn hb
+    hall h hres
 
 /-- `PM.C04.deleteOp_residual` with its schema guards discharged for the bundled schema family -/
 theorem deleteOp_residual (S : Schema) (hS : S ∈ domFamilySchemas) (tr tr1 : Tr)
@@ -275,8 +274,8 @@ theorem deleteOp_residual (S : Schema) (hS : S ∈ domFamilySchemas) (tr tr1 : T
     (textLoop_of_B _ (family_textLoop _ (domFamily_sub _ hS))) (family_det _ (domFamily_sub _ hS))
     (family_fillersOK _ (domFamily_sub _ hS)) (family_wrapOK _ (domFamily_sub _ hS))
     (family_labelsOK _ (domFamily_sub _ hS)) (family_leafOk _ (domFamily_sub _ hS))
-    (family_textStableC _ (domFamily_sub _ hS)) (family_closable _ (domFamily_sub _ hS))
-    (family_textStable _ hS) tr tr1 hlen hml hI hb hattrs f t hft h
+    (family_textStableC _ (domFamily_sub _ hS)) (family_closable _ (domFamily_sub _ hS)) tr tr1 hlen hml hI hb
+    hattrs f t hft h
 
 /-- `PM.C04.insertInlineOp_residual` with its schema guards discharged for the bundled schema family -/
 theorem insertInlineOp_residual (S : Schema) (hS : S ∈ domFamilySchemas) (tr tr1 : Tr)
@@ -290,8 +289,8 @@ theorem insertInlineOp_residual (S : Schema) (hS : S ∈ domFamilySchemas) (tr t
     (textLoop_of_B _ (family_textLoop _ (domFamily_sub _ hS))) (family_det _ (domFamily_sub _ hS))
     (family_fillersOK _ (domFamily_sub _ hS)) (family_wrapOK _ (domFamily_sub _ hS))
     (family_labelsOK _ (domFamily_sub _ hS)) (family_leafOk _ (domFamily_sub _ hS))
-    (family_textStableC _ (domFamily_sub _ hS)) (family_closable _ (domFamily_sub _ hS))
-    (family_textStable _ hS) tr tr1 hlen hml hI hb hattrs f t hft sl hsl hslv hsb h hnorm
+    (family_textStableC _ (domFamily_sub _ hS)) (family_closable _ (domFamily_sub _ hS)) tr tr1 hlen hml hI hb
+    hattrs f t hft sl hsl hslv hsb h hnorm
 
 /-- `PM.C04.editHistory_undo'` with its schema guards discharged for the bundled schema family -/
 theorem editHistory_undo' (S : Schema) (hS : S ∈ domFamilySchemas) (doc : Node) (ops : List Op) (tr' : Tr)
@@ -303,8 +302,8 @@ theorem editHistory_undo' (S : Schema) (hS : S ∈ domFamilySchemas) (doc : Node
     (textLoop_of_B _ (family_textLoop _ (domFamily_sub _ hS))) (family_det _ (domFamily_sub _ hS))
     (family_fillersOK _ (domFamily_sub _ hS)) (family_wrapOK _ (domFamily_sub _ hS))
     (family_labelsOK _ (domFamily_sub _ hS)) (family_leafOk _ (domFamily_sub _ hS))
-    (family_textStableC _ (domFamily_sub _ hS)) (family_closable _ (domFamily_sub _ hS))
-    (family_textStable _ hS) doc ops tr' hd hn hb hall h hres
+    (family_textStableC _ (domFamily_sub _ hS)) (family_closable _ (domFamily_sub _ hS)) doc ops tr' hd hn hb
+    hall h hres
 
 /-- `PM.C04.insertInlineOp_residual'` with its schema guards discharged for the bundled schema family -/
 theorem insertInlineOp_residual' (S : Schema) (hS : S ∈ domFamilySchemas) (tr tr1 : Tr)
@@ -317,7 +316,7 @@ theorem insertInlineOp_residual' (S : Schema) (hS : S ∈ domFamilySchemas) (tr 
     (textLoop_of_B _ (family_textLoop _ (domFamily_sub _ hS))) (family_det _ (domFamily_sub _ hS))
     (family_fillersOK _ (domFamily_sub _ hS)) (family_wrapOK _ (domFamily_sub _ hS))
     (family_labelsOK _ (domFamily_sub _ hS)) (family_leafOk _ (domFamily_sub _ hS))
-    (family_textStableC _ (domFamily_sub _ hS)) (family_closable _ (domFamily_sub _ hS))
-    (family_textStable _ hS) tr tr1 hlen hml hI hb hattrs f t hft sl hsl hslv hsb hsn h
+    (family_textStableC _ (domFamily_sub _ hS)) (family_closable _ (domFamily_sub _ hS)) tr tr1 hlen hml hI hb
+    hattrs f t hft sl hsl hslv hsb hsn h
 
 end PM.Family.C04
